@@ -1,6 +1,7 @@
 import LanceModel.C30.LoopLemmas
 import LanceModel.C30.EncLemmas
 import LanceModel.C30.QueueLemmas
+import LanceModel.C30.DrainLemmas
 /-
 C30 — The I/O scheduler returns exactly the requested bytes and always completes.
 
@@ -177,6 +178,21 @@ theorem drained_queue_delivers (cap buf : Nat) (g : G) (h : Reachable cap buf g)
   refine ⟨t, ?_⟩
   simp [step, hmin, canDeliver, hio, hfl, leMinInFlight]
 
+/-- `always_completes` (liveness of the queue): from EVERY reachable state with a pending task there is a finite sequence of
+    enabled events — the running IOPs complete, then the consumer takes the delivered buffers — after which `next_task` hands out
+    a pending task.  No deadlock: the events of that sequence need nothing from the queue itself. -/
+theorem always_completes (cap buf : Nat) (g : G) (h : Reachable cap buf g) (hcap : 0 < cap) (hp : g.q.pending ≠ []) :
+    ∃ (es : List Ev) (g' : G), runAll g es = some g' ∧ Reachable cap buf g' ∧ g'.q.pending = g.q.pending ∧
+      ∃ t, (step g' (.next t)).isSome := by
+  obtain ⟨g1, r1, hrun1, hdel1, hpend1⟩ := complete_all g.running.length g rfl
+  obtain ⟨g2, r2, hrun2, hdel2, hpend2⟩ := consume_all g1.delivered.length g1 rfl hrun1
+  have hall : runAll g (g.running.map .iopDone ++ g1.delivered.map .consumed) = some g2 := by
+    rw [runAll_append g _ _ g1 r1]; exact r2
+  have hreach := reachable_runAll cap buf _ g g2 h hall
+  have hp2 : g2.q.pending ≠ [] := by rw [hpend2, hpend1]; exact hp
+  exact ⟨_, g2, hall, hreach, by rw [hpend2, hpend1],
+    drained_queue_delivers cap buf g2 hreach hcap hrun2 hdel2 hp2⟩
+
 /-- completing a running task and consuming a completed task are always enabled -/
 theorem completion_enabled (g : G) (t : Task) :
     (t ∈ g.running → (step g (.iopDone t)).isSome) ∧
@@ -215,7 +231,11 @@ def exG : G :=
   ((step (G.new 2 10) (.push ⟨0, 1, 8⟩)).bind (step · (.push ⟨1, 2, 8⟩))).bind (step · (.next ⟨0, 1, 8⟩)) |>.getD (G.new 2 10)
 example : exG.q.pending = [⟨1, 2, 8⟩] ∧ exG.q.iopsAvail = 1 ∧ exG.q.bytesAvail = 2 ∧ exG.q.inFlight = [1] := by decide
 example : (step exG (.next ⟨1, 2, 8⟩)).isNone ∧ (step exG .nextNone).isSome := by decide
-example : Reachable 2 10 exG :=
+theorem exG_reachable : Reachable 2 10 exG :=
   .step (.next ⟨0, 1, 8⟩) (.step (.push ⟨1, 2, 8⟩) (.step (.push ⟨0, 1, 8⟩) .init rfl) rfl) rfl
+-- … from which completing task 0 and consuming it re-enables `next_task` for the refused task (instance of always_completes)
+example : (runAll exG [.iopDone ⟨0, 1, 8⟩, .consumed ⟨0, 1, 8⟩]).map (fun g => (step g (.next ⟨1, 2, 8⟩)).isSome) = some true := by
+  decide
+example : exG.q.pending ≠ [] := by decide
 
 end LanceModel.C30
